@@ -125,7 +125,7 @@ def strategy(draw, tier="quick"):
     cell = _cellkind(fmt, draw(st.sampled_from([None, "ortho", "tric", "vary"])))
     op = draw(st.sampled_from(["stride", "stride", "frame", "iterload", "iterload", "iterload", "list"]))
     case = {"fmt": fmt, "nf": nf, "na": na, "cell": cell, "seed": draw(st.integers(0, 3)), "op": op}
-    if draw(st.booleans()) and op != "list":
+    if draw(st.booleans()):
         if na >= 7 and draw(st.integers(0, 2)) == 0:
             # almost-regular subsets: an arithmetic progression with one interior element moved by one - the shapes a
             # "turn the index array into a slice" shortcut gets wrong
@@ -227,15 +227,29 @@ def _run_case(case):
                 nontrivial = nontrivial or i > 0
             elif case["op"] == "list":
                 k = case["k"]
-                fns, fulls = [], []
+                fns, fulls, fulls_all = [], [], []
                 for j in range(k):
                     f_j, _t, full_j = _file(fmt, nf, na, case["cell"], case["seed"], idx=j)
                     fns.append(f_j)
                     fulls.append(full_j[::stride])
-                got = md.load(fns, stride=stride, **kw)
+                    fulls_all.append(full_j)
+                got = md.load(fns, stride=stride, **akw, **kw)
                 exp = fulls[0] if k == 1 else md.join(fulls, check_topology=False)
-                cmp("load-list", got, exp)
-                nontrivial = k > 1
+                cmp("load-list" if atoms is None else "load-list-atoms", got, expect(exp))
+                if atoms is not None and files.needs_top(fmt):
+                    # the caller's Topology object must come out of the call unchanged and keep working: a second partial
+                    # load through the same object with another subset must again be restricted to *its* atoms
+                    if "subset" in vars(tr.topology):
+                        viol.append(("load-list-atoms/caller-topology-modified", "md.load(list, top=<Topology>, atom_indices=...) left a patched "
+                                     "`subset` attribute on the caller's Topology object"))
+                        del tr.topology.__dict__["subset"]   # keep the cached object usable for later cases
+                    else:
+                        other = [a for a in range(na) if a not in atoms][:3] or [0]
+                        got2 = md.load(fns[:1], atom_indices=np.array(other), **kw)
+                        d2 = files.traj_diff(got2, fulls_all[0].atom_slice(other))
+                        if d2 or _top_sig(got2.topology) != _top_sig(fulls_all[0].atom_slice(other).topology):
+                            viol.append(("load-list-atoms/second-load", "a second load through the same Topology object with another atom subset is wrong: %s" % d2))
+                nontrivial = k > 1 or atoms is not None
             else:
                 chunk, skip = case["chunk"], case["skip"]
                 exp = expect(full[skip:][::stride])
